@@ -4,7 +4,9 @@
   Proved here, for the channel pipeline of manager.go as a transition system with any number
   W ≥ 1 of workers, any work items and EVERY schedule: conservation, absence of deadlock,
   termination, no send on a closed channel, the final printed multiset, isolation of items
-  that yield nothing.  What each work item yields is the Disk model (C06 / C07), whose exact
+  that yield nothing; and for the recursive walk behind -r (the fastwalk callback with its cycle
+  cache): it terminates on EVERY tree, cyclic and aliased directory links included — beyond a
+  depth computed from the tree more fuel changes nothing.  What each work item yields is the Disk model (C06 / C07), whose exact
   cover is C05 / C06.  Not provable here (partial): fastwalk's internal work distribution
   (assumed: callback once per entry, returns after all callbacks), scheduler fairness, the
   schedules of the real binary (sampled with GOMAXPROCS 1 / 2 / 16).
@@ -13,6 +15,7 @@ import GfsModel.Seqls
 import GfsModel.Expected
 import GfsGen.Facts
 import GfsProofs.SeqlsLemmas
+import GfsProofs.WalkTerm
 import GfsModel.ExpectedSrc
 
 namespace Gfs.Props.C17
@@ -54,6 +57,31 @@ theorem C17_output_needs_workers :
 theorem C17_bad_arg_isolated (seqs dirs : List Item) (bad : Item) (hb : bad.result = none) :
     expectedLines (seqs ++ bad :: dirs) = expectedLines (seqs ++ dirs) ∧
     expectedLines (bad :: seqs ++ dirs) = expectedLines (seqs ++ dirs) := bad_item_isolated seqs dirs bad hb
+
+/-- the recursive walk terminates on every tree, whatever its links: `walkBound t` = (number of
+    directory links + 1) × (longest path + 2) bounds the nesting of the calls (each nested call
+    either descends to a longer real path or follows a link whose target is recorded for the
+    first time), so the walk with that much fuel — the one the protocol driver runs — is the walk
+    with any larger amount of fuel, i.e. the fuel-free recursion of the Go code. -/
+theorem C17_walk_terminates (t : Tree) (all : Bool) (seen : List Bytes) (shown real : Bytes) (k : Nat) :
+    walk t all (walkBound t + k) seen shown real = walk t all (walkBound t) seen shown real :=
+  WalkTerm.walk_fuel_irrelevant t all seen shown real k
+
+/-- the cycle cache only grows: a target recorded once stays recorded for the rest of the walk
+    (why a link met again — through a cycle or an alias — is listed but not followed) -/
+theorem C17_walk_cache_grows (t : Tree) (all : Bool) (fuel : Nat) (seen : List Bytes) (shown real : Bytes) :
+    ∀ x ∈ seen, x ∈ (walk t all fuel seen shown real).2 :=
+  WalkTerm.walk_seen_sub t all fuel seen shown real
+
+/-- a cyclic tree (show/shot/up -> show, next to a link to a flat directory): the walk ends, and
+    lists the second pass through the cycle without following its links again -/
+example :
+    let t : Tree := [⟨"show".toList, .dir⟩, ⟨"show/shot".toList, .dir⟩, ⟨"pub".toList, .dir⟩,
+      ⟨"show/shot/up".toList, .linkDir "show".toList⟩, ⟨"show/shot/ln".toList, .linkDir "pub".toList⟩]
+    (walk t false (walkBound t) [] "show".toList "show".toList).1.map (·.1) =
+      ["show".toList, "show/shot".toList, "show/shot/up".toList, "show/shot/up/shot".toList,
+       "show/shot/up/shot/up".toList, "show/shot/up/shot/ln".toList, "show/shot/ln".toList] := by
+  decide +kernel
 
 /-- the goroutine / channel skeleton of the work manager, re-extracted from manager.go on this
     run, is the one the transition system was written from -/
